@@ -92,6 +92,14 @@ def gen_toy(c):
            'obs_y': [c.uniform(0.5, 30) for _ in range(ngrid)],
            'obs_err': [10 ** c.uniform(-2, 0) for _ in range(ngrid)],
            'invalid_above': None}
+    if c.random() < 0.25:
+        # two-dimensional data (as a light curve has): rows x grid
+        nrow = c.randint(2, 4)
+        cfg['rows2d'] = [c.uniform(0.5, 1.5) for _ in range(nrow)]
+        cfg['obs_y'] = [[c.uniform(0.5, 30) for _ in range(ngrid)]
+                        for _ in range(nrow)]
+        cfg['obs_err'] = [[10 ** c.uniform(-2, 0) for _ in range(ngrid)]
+                          for _ in range(nrow)]
     fit = []
     names = [p['name'] for p in mp + op]
     k = c.randint(1, len(names))
@@ -311,9 +319,17 @@ def execute(case, keep_text=False):
     fitted = set(order)
     written = {}      # name -> last linear value any session wrote
 
+    def current_value(name):
+        if name in written:
+            return written[name]
+        for own in ('m', 'o'):
+            if (own, name) in baseline:
+                return baseline[(own, name)]
+        raise KeyError(name)
+
     def enter_segment(newfit):
         nonlocal fit, fit_by_name, order, specs, ndim, fitted
-        fit = newfit
+        fit = S.resolve_factors(newfit, current_value)
         fit_by_name = {f['name']: f for f in fit}
         order = S.fit_order(model0, obs0, fit)
         specs = [fit_by_name[n]['prior'] for n in order]
@@ -328,7 +344,7 @@ def execute(case, keep_text=False):
             off = 0.0
             if is_toy:
                 off = sum(obs0._values.values())
-            cfg['obs_override'] = [float(v) - off for v in yb]
+            cfg['obs_override'] = (np.asarray(yb, dtype=float) - off).tolist()
             out.bump('probes', 'exact_fit_run')
         except Exception:
             cfg.pop('exact_fit')
@@ -374,9 +390,10 @@ def execute(case, keep_text=False):
         try:
             if is_toy:
                 x, ym, _, _ = m2.model()
-                yb = list(ym)
-                yo = list(o2.spectrum)
-                so = list(o2.errorBar)
+                yb = [float(v) for v in np.ravel(ym)]
+                yo = [float(v) for v in np.ravel(o2.spectrum)]
+                so = [float(v) for v in np.ravel(o2.errorBar)]
+                ym = yb
             else:
                 ng, ym, _, _ = m2.model(wngrid=o2.wavenumberGrid)
                 yb = refs.ref_bin(list(ng), list(ym), list(o2.wavenumberGrid),
@@ -626,6 +643,8 @@ def execute(case, keep_text=False):
                      're-configuring the optimizer raised %r' % (e,))
                 break
             enter_segment(newfit)
+            if any(f.get('factor') for f in newfit):
+                out.bump('probes', 'factor_boundary_between_fits')
             state['last'] = None
             state['stored'] = []
             out.bump('probes', 'refit_session')
